@@ -73,7 +73,7 @@ theorem scan_rem_some (sp : Bool) {vtok : Str} (hv : NumTok vtok) (ts : Option S
     rw [show (if sp then [' '] else []) ++ ((vtok ++ optTok ts ++ [' ']) ++ '#' :: ' ' :: '{' :: (exBlock L ++ '}' :: ' ' :: (etok ++ optTok ets)))
       = ((if sp then [' '] else []) ++ (vtok ++ optTok ts ++ [' ']) ++ ['#', ' ']) ++ '{' :: (exBlock L ++ '}' :: ' ' :: (etok ++ optTok ets)) by simp]
     rw [scan_append_of_noHit _ _ _ _ _ hp.1, hp.2, scan_hit lbChs '{' _ false (by decide) (by decide)]
-    simp
+    simp; omega
 
 /-- without an exemplar there is no unquoted '{' in `[ ]remainder` -/
 theorem scan_rem_none (sp : Bool) {vtok : Str} (hv : NumTok vtok) (ts : Option Str) (hts : ∀ t, ts = some t → NumTok t) :
@@ -151,7 +151,8 @@ theorem parseSample_bare (P : Params) {n : Str} (hv : isValidLegacyMetricName n 
       rw [List.take_left]
       exact isInfix_suffix OMParse.sepHash _ (by decide)
   unfold parseSample sampleOf
-  simp only [hnoLabels, ↓reduceIte, hend, optIdx, Int.ofNat_eq_natCast, hname, hv, Bool.not_true, Bool.false_eq_true, hrem,
+  rw [if_pos hnoLabels]
+  simp only [↓reduceIte, hend, optIdx, Int.ofNat_eq_natCast, hname, hv, Bool.not_true, Bool.false_eq_true, hrem,
     bind, Except.bind, pure, Except.pure]
   cases parseRemainingText P (remText vtok ts ex) with
   | error e => rfl
